@@ -30,9 +30,14 @@ RULE = ("resilient thread-mode runs (run_local_thread_dcop(replication='dist_ucs
 
 def gen_instance(rng):
     algo = rng.choice(["dsa", "mgm", "amaxsum", "dsa", "mgm", "amaxsum", "maxsum"])
-    case = gen.gen_case(rng, min_vars=4, max_vars=6, max_dom=3, palettes=("ties", "distinct"), max_space=800, nary=False,
-                        unary=False, var_costs=False, binary_only=True, str_domains=False, dup_scopes=False,
-                        shapes=("chain", "tree", "cycle", "star"))
+    if rng.random() < 0.5:
+        case = gen.gen_case(rng, min_vars=4, max_vars=6, max_dom=3, palettes=("ties", "distinct"), max_space=800, nary=False,
+                            unary=False, var_costs=False, binary_only=True, str_domains=False, dup_scopes=False,
+                            shapes=("chain", "tree", "cycle", "star"))
+    else:
+        # the general case: n-ary, unary and duplicate-scope constraints, variable costs, string domains (connected shapes)
+        case = gen.gen_case(rng, min_vars=4, max_vars=6, max_dom=3, palettes=("ties", "distinct", "float"), max_space=800,
+                            shapes=("chain", "tree", "cycle", "star"))
     nv = len(case["variables"])
     na = min(rng.randint(4, 6), nv if algo not in ("maxsum", "amaxsum") else 6)
     k = rng.randint(1, 2)
